@@ -158,6 +158,12 @@ class StmtsMixin:
                 if any(a.get_id() in fa for a in x.arrs):
                     st.meta['fresh_arrs'] = set(fa) | {n.get_id() for n in new}
                 self.replace_arrays(st, x.arrs, new)
+                lx = l['X']
+                while lx['_'] == 'ParenExpr': lx = lx['X']
+                if lx['_'] != 'Ident':
+                    # the slice lives in a field / behind a pointer: the updated array has to be stored there too
+                    # (replace_arrays only reaches values that mention the old array term)
+                    self.assign_to(st, lx, SliceV(new, x.off, x.len, x.cap, x.etid, x.isnil))
                 return
             if isinstance(x, ArrayV):
                 self.oblige(st, 'bounds@%s' % line, z3.And(0 <= i, i < x.n), src=line)
@@ -381,6 +387,10 @@ class StmtsMixin:
                 if base['_'] == 'IndexExpr':
                     acc_fields.add(('elems', id(base)))
                     acc_calls.append(('elemwrite', base['X']))
+                    bx = base['X']
+                    while bx['_'] == 'ParenExpr': bx = bx['X']
+                    if bx['_'] == 'SelectorExpr' and bx.get('sel') is not None and bx['sel'].get('kind') == 'field':
+                        acc_fields.add((bx['X'].get('t'), bx['Sel']['Name']))      # the slice is held in a field
                     if xk in ('slice', 'ptr'): through_ref = True
                 if base['_'] == 'StarExpr':
                     through_ref = True
@@ -625,6 +635,24 @@ class StmtsMixin:
         walk(s.get('Body'))
         return out
 
+    def field_reassigned(self, body, sel):
+        """is the field named by the selector assigned as a whole (x.f = ...) somewhere in the body?"""
+        name = sel['Sel']['Name']
+        found = [False]
+        def walk(n):
+            if isinstance(n, list):
+                for x in n: walk(x)
+            elif isinstance(n, dict):
+                if n.get('_') == 'AssignStmt':
+                    for l in n['Lhs']:
+                        while l['_'] == 'ParenExpr': l = l['X']
+                        if l['_'] == 'SelectorExpr' and l.get('sel') is not None and l['Sel']['Name'] == name:
+                            found[0] = True
+                for k, v in n.items():
+                    if k not in ('obj', 'sel', 'implicit') and isinstance(v, (dict, list)): walk(v)
+        walk(body)
+        return found[0]
+
     def slice_rebased(self, loopnode, oid):
         """does the loop assign the slice variable from anything but a re-slice of itself?"""
         found = [False]
@@ -714,7 +742,33 @@ class StmtsMixin:
             st.env[rid] = z3.IntVal(0)
         st.meta = dict(st.meta)
         rng = dict(st.meta.get('range', {}))
-        rng[key] = {'x': x, 'mod': mod + [rid]}
+        live = False
+        if isinstance(x, SliceV):
+            vs, fs, calls = set(), set(), []
+            self.assigned_in(s['Body'], vs, fs, calls)
+            writes = any(c[0] == 'elemwrite' for c in calls)
+            callsassign = False
+            for c in calls:
+                if c[0] == 'call':
+                    k2, _ = self.callee_key_static(c[1]['Fun'])
+                    ct = (self.contracts.get(k2) or self.externs.get(k2)) if k2 else None
+                    if ct is not None and ct.get('assigns') and not any(a.text.strip() == 'nothing' for a in ct.get('assigns')):
+                        callsassign = True
+            if writes or callsassign:
+                live = True
+                xn = s['X']
+                while xn['_'] == 'ParenExpr': xn = xn['X']
+                if xn['_'] == 'Ident':
+                    if xn.get('obj', {}).get('id') in vs:
+                        raise Unsupported('range over a slice variable that the body reassigns while it writes elements @%s' % s.get('line'))
+                elif xn['_'] == 'SelectorExpr' and xn.get('sel') is not None:
+                    if self.field_reassigned(s['Body'], xn):
+                        raise Unsupported('range over a slice field that the body reassigns while it writes elements @%s' % s.get('line'))
+                elif xn['_'] not in ('CallExpr',):
+                    raise Unsupported('range over %s with element writes in the body @%s' % (xn['_'], s.get('line')))
+                else:
+                    live = False        # a call result: nothing else names that array
+        rng[key] = {'x': x, 'mod': mod + [rid], 'live': live}
         st.meta['range'] = rng
         self.frame.objtypes[rid] = self.frame.int_tid
         st.names['$i%s' % (self.loop_id(s),)] = rid
@@ -762,7 +816,15 @@ class StmtsMixin:
             self.assign_to(st, kn, i)
         if vn is not None and not (vn['_'] == 'Ident' and vn['Name'] == '_'):
             if isinstance(x, SliceV):
-                v = self.lay.unflatten(iter([z3.Select(a, x.off + i) for a in x.arrs]), x.etid)
+                arrs = x.arrs
+                if r.get('live'):
+                    # Go evaluates the slice header once but reads the elements from the live array: the body writes
+                    # elements, so the operand is looked up again (its variable / field is not reassigned in the body)
+                    cur = self.ev(st, s['X'])
+                    if not isinstance(cur, SliceV):
+                        raise Unsupported('range operand changed kind')
+                    arrs = cur.arrs
+                v = self.lay.unflatten(iter([z3.Select(a, x.off + i) for a in arrs]), x.etid)
             else:
                 v = self.lay.unflatten(iter([z3.Select(a, i) for a in x.arrs]), x.etid)
             self.elem_facts(st, v, x.etid)
